@@ -644,9 +644,19 @@ func enumC13(env *EnumEnv, it *WorkItem) *EnumResult {
 	res := &EnumResult{Exhaustive: true}
 	reported := map[string]bool{}
 	idx := 0
+	phase, expired, skipped := "", false, 0
 	eval := func(c storeCase) {
 		idx++
 		if idx%it.NShards != it.Shard {
+			return
+		}
+		if expired || env.Expired() {
+			if !expired {
+				expired = true
+				res.Exhaustive = false
+				res.Notes = append(res.Notes, fmt.Sprintf("budget reached in phase %q after %d evaluations of this shard; everything before that phase was covered completely", phase, res.Evaluations))
+			}
+			skipped++
 			return
 		}
 		res.Evaluations++
@@ -668,8 +678,18 @@ func enumC13(env *EnumEnv, it *WorkItem) *EnumResult {
 	if env.Tier == "thorough" {
 		depth = 4
 	}
+	small := storeShape{Blocks: 1, Seqs: 1, Actions: 1, Checks: 2, Variant: 1}
+	var ops []updOp
+	for o := 0; o < len(listObjects(small.build())); o++ {
+		for k := 0; k < updKinds; k++ {
+			if _, ok := applyUpd(small.build(), updOp{o, k}, 0); ok {
+				ops = append(ops, updOp{o, k})
+			}
+		}
+	}
 	for _, f := range vaultFactories() {
 		// (1) every shape x variant: Create/Read round trip, unknown and deleted ids, and one update of every kind on every object
+		phase = f.name + ": shapes and single updates"
 		for _, sh := range storeShapes(env.Tier) {
 			eval(storeCase{Vault: f.name, Shape: sh})
 			n := len(listObjects(sh.build()))
@@ -681,31 +701,8 @@ func enumC13(env *EnumEnv, it *WorkItem) *EnumResult {
 				}
 			}
 		}
-		// (2) all update sequences up to the depth on a small plan with one check group (6 objects + check action)
-		small := storeShape{Blocks: 1, Seqs: 1, Actions: 1, Checks: 2, Variant: 1}
-		n := len(listObjects(small.build()))
-		var ops []updOp
-		for o := 0; o < n; o++ {
-			for k := 0; k < updKinds; k++ {
-				if _, ok := applyUpd(small.build(), updOp{o, k}, 0); ok {
-					ops = append(ops, updOp{o, k})
-				}
-			}
-		}
-		var rec func(prefix []updOp)
-		rec = func(prefix []updOp) {
-			if len(prefix) >= 2 {
-				eval(storeCase{Vault: f.name, Shape: small, Ops: append([]updOp{}, prefix...)})
-			}
-			if len(prefix) == depth {
-				return
-			}
-			for _, op := range ops {
-				rec(append(prefix, op))
-			}
-		}
-		rec(nil)
 		// (3) an id whose Create FAILED was never created: an unencodable request at every action position of every shape
+		phase = f.name + ": failed creates"
 		nfail := 0
 		for _, sh := range storeShapes(env.Tier) {
 			if sh.Variant != 0 && env.Tier != "thorough" {
@@ -719,7 +716,7 @@ func enumC13(env *EnumEnv, it *WorkItem) *EnumResult {
 			}
 			for pos := 0; pos < nact; pos++ {
 				idx++
-				if idx%it.NShards != it.Shard {
+				if idx%it.NShards != it.Shard || expired {
 					continue
 				}
 				res.Evaluations++
@@ -735,7 +732,34 @@ func enumC13(env *EnumEnv, it *WorkItem) *EnumResult {
 				}
 			}
 		}
-		res.Notes = append(res.Notes, fmt.Sprintf("%s: %d shapes, update alphabet of %d operations on the small plan, all sequences up to depth %d; %d failed Creates (this shard)", f.name, len(storeShapes(env.Tier)), len(ops), depth, nfail))
+		res.Notes = append(res.Notes, fmt.Sprintf("%s: %d shapes, %d failed Creates (this shard)", f.name, len(storeShapes(env.Tier)), nfail))
+	}
+	// (2) all update sequences on a small plan with one check group (6 objects + check action), shortest first: every
+	// length is finished for both vaults before the next one begins
+	for L := 2; L <= depth; L++ {
+		for _, f := range vaultFactories() {
+			phase = fmt.Sprintf("%s: update sequences of length %d", f.name, L)
+			var rec func(prefix []updOp)
+			rec = func(prefix []updOp) {
+				if len(prefix) == L {
+					eval(storeCase{Vault: f.name, Shape: small, Ops: append([]updOp{}, prefix...)})
+					return
+				}
+				for _, op := range ops {
+					if expired {
+						return
+					}
+					rec(append(prefix, op))
+				}
+			}
+			rec(nil)
+		}
+		if !expired {
+			res.Notes = append(res.Notes, fmt.Sprintf("all sequences of length %d over the update alphabet of %d operations done for every vault", L, len(ops)))
+		}
+	}
+	if skipped > 0 {
+		res.Notes = append(res.Notes, fmt.Sprintf("%d cases of this shard were not evaluated", skipped))
 	}
 	if cosmosFactory == nil {
 		res.Notes = append(res.Notes, "cosmosdb (over its fake client) was not available in this build")
